@@ -384,6 +384,21 @@ Section Strong.
     intros Im. rewrite K3; auto.
   Qed.
 
+  (* ------------------------------------- cache entries after any history *)
+  (* after ANY Build/Evaluate history from a state of the invariant, an input
+     entry and every non-empty entry is the from-scratch value *)
+  Theorem valued_is_spec s h m : Inv s -> Forall be_op h -> m < N ->
+    (isinput m = true \/ st_cache (fst (run W sem s h)) m <> VNone) ->
+    st_cache (fst (run W sem s h)) m = spec W sem (st_cache s) m.
+  Proof.
+    intros I F L H. destruct (be_run W sem WF NB SO h s I F) as [I1 K].
+    destruct (isinput m) eqn:Im.
+    - rewrite K by auto. symmetry. now apply spec_input.
+    - destruct H as [H|H]; [discriminate|].
+      destruct (st_built (fst (run W sem s h)) m) eqn:B.
+      + rewrite (Inv_I1 W sem _ I1 m B Im H). apply spec_ext; auto.
+      + exfalso. apply H. rewrite (inv_unbuilt W sem _ I1 m B), Im. reflexivity.
+  Qed.
 End Strong.
 
 (* ================================================================ weak *)
@@ -543,6 +558,33 @@ Section WeakList.
     split; [exact E|]. rewrite E. split; [exact P1|].
     rewrite P1, Vc, Vc1. symmetry. apply spec_ext; auto.
   Qed.
+  (* C05_states_agree: after ANY two Build/Evaluate histories the final caches
+     agree on every input cell and on every cell that holds a value in both *)
+  Theorem states_agree_weak s h1 h2 m : Inv W sem s -> Forall (be_op W) h1 -> Forall (be_op W) h2 ->
+    m < N ->
+    (wb_input W m = true \/ (st_cache (fst (run W sem s h1)) m <> VNone
+                              /\ st_cache (fst (run W sem s h2)) m <> VNone)) ->
+    st_cache (fst (run W sem s h1)) m = st_cache (fst (run W sem s h2)) m
+    /\ st_cache (fst (run W sem s h1)) m = spec W sem (st_cache s) m.
+  Proof.
+    intros I F1 F2 L H. apply (Inv_guard W sem WF NBW) in I.
+    rewrite (spec_guard W sem WF NBW _ m L).
+    rewrite (run_g h1 s F1), (run_g h2 s F2) in *.
+    rewrite (valued_is_spec W g WF NB2 SO2 s h1 m I F1 L) by (destruct H as [H|[H _]]; auto).
+    rewrite (valued_is_spec W g WF NB2 SO2 s h2 m I F2 L) by (destruct H as [H|[_ H]]; auto).
+    auto.
+  Qed.
+
+  (* C05_settled: the side condition of C05_permutation / C05_same_members holds
+     at the start and after every address list *)
+  Theorem settled_weak : settled W (init W) /\ Inv W sem (init W)
+    /\ forall s l, Inv W sem s -> settled W s -> ltN W l ->
+         settled W (fst (evaluate_list W sem s l)) /\ Inv W sem (fst (evaluate_list W sem s l)).
+  Proof.
+    split; [apply settled_init|]. split.
+    - apply (invariant_weak W sem WF NBW SO).
+    - intros s l I S F. split; [now apply settled_list_weak|now apply list_inv_weak].
+  Qed.
 End WeakList.
 
 (* ---- the hypotheses are satisfiable (tests, not theorems): the two-column
@@ -606,3 +648,17 @@ Proof.
 Qed.
 Example xl_unbounded_value : tuple_at (snd (evaluate exaW xp_sem (init exaW) 3)) 1 0 = VInt 4.
 Proof. vm_compute. reflexivity. Qed.
+
+Example xl_states_agree :
+  st_cache (fst (run exaW exa_sem (init exaW) [Evaluate 5; Build 3])) 4
+  = st_cache (fst (run exaW exa_sem (init exaW) [Build 2; Evaluate 4; Evaluate 0])) 4
+  /\ st_cache (fst (run exaW exa_sem (init exaW) [Evaluate 5; Build 3])) 4 = VInt 11.
+Proof.
+  destruct (states_agree_weak exaW exa_sem (exa_wf _) (exa_weak _) xo_stored (init exaW)
+              [Evaluate 5; Build 3] [Build 2; Evaluate 4; Evaluate 0] 4 xo_inv) as [A B].
+  - repeat constructor; cbn; lia.
+  - repeat constructor; cbn; lia.
+  - cbn; lia.
+  - right. split; vm_compute; discriminate.
+  - split; [exact A|]. vm_compute. reflexivity.
+Qed.
